@@ -139,6 +139,12 @@ class Sim:
                 self.loop.call_soon(countdown, k - 1)
         countdown(tm[3])
 
+    def strategy_stepped(self, strategy):
+        if self.target is not None and self.after_unload() and getattr(strategy, "overlay", None) is self.target.overlay:
+            self.violate("strategy.take_step:after-unload",
+                         f"the service stepped {type(strategy).__name__} of the unloaded {type(self.target.overlay).__name__} "
+                         f"{self.loop.time() - self.unload_done:.1f} virtual s after unload_overlay() returned")
+
     def node_of_overlay(self, ov):
         for nd in self.nodes:
             if nd.overlay is ov:
@@ -161,7 +167,11 @@ class Sim:
 
         async def do():
             try:
-                await ov.unload()
+                svc = getattr(self.target, "service", None)
+                if svc is not None:
+                    await svc.unload_overlay(ov)      # the way an application unloads an overlay of a running service
+                else:
+                    await ov.unload()
             except Exception as e:  # noqa: BLE001
                 self.unload_error = f"{type(e).__name__}: {e}"
             self.unload_done = self.loop.time()
@@ -321,6 +331,79 @@ def build_node(sim, cls, stack, flags=None):
     instrument(sim, node)
     sim.nodes.append(node)
     return node
+
+
+def watch_strategy(sim, strategy):
+    orig = strategy.take_step
+
+    def take_step(*a, **k):
+        sim.strategy_stepped(strategy)
+        return orig(*a, **k)
+    strategy.take_step = take_step
+
+
+def build_service(sim, cls_name, stack, rng):
+    """A real ipv8_service.IPv8 with the DEFAULT configuration (all default overlays and walkers) on a mock endpoint.
+    Returns the Node of the overlay of class `cls_name`; node.service is the IPv8 instance."""
+    import copy
+
+    from ipv8.configuration import get_default_configuration
+    from ipv8.messaging.anonymization.endpoint import TunnelEndpoint
+    from ipv8.peerdiscovery.discovery import RandomWalk
+    from ipv8_service import IPv8
+    rec_cls = make_endpoint_class()
+
+    class ServiceEndpoint(rec_cls):
+        async def open(self):          # IPv8.start() awaits endpoint.open()
+            rec_cls.open(self)
+            return True
+
+    rec = ServiceEndpoint()
+    endpoint = TunnelEndpoint(rec) if stack == "tunnel-endpoint" else rec
+    conf = copy.deepcopy(get_default_configuration())
+    conf["logger"] = {"level": "CRITICAL"}
+    for key in conf["keys"]:
+        key["file"] = ""                      # storage location only
+    for o in conf["overlays"]:
+        o["bootstrappers"] = []               # no Internet in the sandbox
+    svc = IPv8(conf, endpoint_override=endpoint)
+    logging.disable(logging.CRITICAL)
+    node = None
+    for ov in svc.overlays:
+        ov.my_estimated_wan = rec.wan_address
+        ov.my_estimated_lan = rec.lan_address
+        if type(ov).__name__ == cls_name:
+            node = Node(sim, ov, endpoint, rec)
+    if node is None:
+        raise InfraError(f"default configuration has no overlay {cls_name}")
+    # more strategies, consecutive and interleaved, for randomly chosen overlays (the application may add any)
+    for _ in range(rng.randrange(0, 5)):
+        ov = rng.choice(svc.overlays)
+        svc.add_strategy(ov, RandomWalk(ov, timeout=3.0), rng.choice([-1, 20]))
+    for strategy, _ in svc.strategies:
+        watch_strategy(sim, strategy)
+    node.service = svc
+    node.all_overlays = list(svc.overlays)
+    instrument(sim, node)
+    sim.nodes.append(node)
+    return node
+
+
+SERVICE_CLASSES = ["DHTDiscoveryCommunity", "DiscoveryCommunity", "HiddenTunnelCommunity"]
+
+
+async def sc_service(sim, nodes, rng):
+    """Real services with the default configuration: tickers drive the walkers; everybody gets introduced."""
+    for nd in nodes:
+        await nd.service.start()
+    await nap(0.2)
+    for x in nodes:
+        for y in nodes:
+            if x is not y:
+                for ov in x.all_overlays:
+                    if not (x is sim.target and sim.unload_started is not None and ov is x.overlay):
+                        guarded(ov.walk_to, y.base.wan_address)
+    await nap(rng.choice([2.0, 6.0, 12.0]))
 
 
 def instrument(sim, node):
@@ -566,7 +649,7 @@ async def sc_inflight(sim, nodes, rng):
     await nap(14.0)
 
 
-SCENARIOS = {"inflight": sc_inflight, "attestation": sc_attestation, "intro": sc_intro, "discovery": sc_discovery, "dht": sc_dht, "tunnel": sc_tunnel}
+SCENARIOS = {"service": sc_service, "inflight": sc_inflight, "attestation": sc_attestation, "intro": sc_intro, "discovery": sc_discovery, "dht": sc_dht, "tunnel": sc_tunnel}
 
 
 def scenario_families(cls_name):
@@ -581,7 +664,7 @@ def scenario_families(cls_name):
         fam.append("tunnel")
     if cls_name in INFLIGHT_APIS:
         fam.append("inflight")
-    return fam
+    return fam          # (+ family "service" for the classes of the default configuration, see service_specs)
 
 
 def tunnel_flags(role_index, n, hops):
@@ -694,6 +777,9 @@ async def _scenario_main(sim, cls, spec, rng, dry):
     family = spec["family"]
     nodes = []
     for i in range(n):
+        if family == "service":
+            nodes.append(build_service(sim, spec["cls"], spec["stack"], rng))
+            continue
         flags = tunnel_flags(i, n, sim.hops) if family == "tunnel" or hasattr(cls.settings_class, "peer_flags") else None
         nodes.append(build_node(sim, cls, spec["stack"], flags))
     target = nodes[spec["target"]]
@@ -711,7 +797,10 @@ async def _scenario_main(sim, cls, spec, rng, dry):
     await SCENARIOS[family](sim, nodes, rng)
     if dry:
         for nd in nodes:
-            await aguarded(nd.overlay.unload())
+            if getattr(nd, "service", None) is not None:
+                await aguarded(nd.service.stop())
+            else:
+                await aguarded(nd.overlay.unload())
         return
     if sim.unload_started is None:
         sim.request_unload()           # trigger beyond the end of the run / "idle"
@@ -726,6 +815,8 @@ async def _scenario_main(sim, cls, spec, rng, dry):
     probe_api(sim, target)
     for other in nodes:
         if other is not target:
+            for oov in getattr(other, "all_overlays", []):
+                guarded(oov.walk_to, target.base.wan_address)
             guarded(other.overlay.walk_to, target.base.wan_address)
             if hasattr(other.overlay, "do_ping"):
                 guarded(other.overlay.do_ping)
@@ -740,7 +831,20 @@ async def _scenario_main(sim, cls, spec, rng, dry):
             f.set_result(None)          # the application answers late: "no attestation"
     for other in nodes:
         if other is not target:
-            await aguarded(other.overlay.unload())
+            if getattr(other, "service", None) is not None:
+                await aguarded(other.service.stop())
+            else:
+                await aguarded(other.overlay.unload())
+    svc = getattr(target, "service", None)
+    if svc is not None:
+        # the service of the unloaded overlay keeps ticking its other overlays for two more virtual minutes
+        await nap(120.0)
+        left = [type(st).__name__ for st, _ in svc.strategies if getattr(st, "overlay", None) is ov]
+        if left or ov in svc.overlays:
+            sim.violate("IPv8.unload_overlay:strategy-left-registered",
+                        f"after unload_overlay({type(ov).__name__}) the service still lists "
+                        f"{'the overlay and ' if ov in svc.overlays else ''}its strategies {left}")
+        await aguarded(svc.stop())
     await nap(TWO_HOURS)
     final_checks(sim, target)
     for j in sim.app_jobs:
@@ -1383,6 +1487,19 @@ def scenario_specs(ctx: Ctx, rng, per_combo_steps, per_combo_times, steps_cache)
                                 yield {**base, "target": n - 1, "trigger": ["mark", "enable", 0, "iter", it]}
 
 
+def service_specs(rng, deep):
+    """Overlays of a running ipv8_service.IPv8 (default configuration), unloaded through IPv8.unload_overlay."""
+    for cls in SERVICE_CLASSES:
+        for stack in STACKS:
+            base = {"cls": cls, "stack": stack, "family": "service", "nodes": 2, "hops": 1}
+            reps = 6 if deep else 1
+            for _ in range(reps):
+                yield {**base, "seed": rng.getrandbits(30), "target": rng.randrange(2),
+                       "trigger": ["time", round(rng.uniform(0.0, 10.0), 3)]}
+            if deep or stack == "plain":
+                yield {**base, "seed": rng.getrandbits(30), "target": rng.randrange(2), "trigger": ["idle"]}
+
+
 def inflight_specs(cls, stack, rng, deep):
     """Application-owned API calls in flight: unload k loop iterations / t seconds after the calls were started."""
     n = 4 if "DHT" in cls else 3
@@ -1432,6 +1549,9 @@ def run_one_scenario(ctx: Ctx, spec):
 def run_scenarios(ctx: Ctx, rng, per_combo_steps, per_combo_times, limit=None):
     steps_cache = {}
     n = 0
+    for spec in service_specs(rng, per_combo_steps is None):
+        run_one_scenario(ctx, spec)
+        n += 1
     for spec in scenario_specs(ctx, rng, per_combo_steps, per_combo_times, steps_cache):
         if spec["target"] is None:                 # exhaustive: every role at every step
             for tgt in range(spec["nodes"]):
@@ -1544,6 +1664,91 @@ def run_unload_static(ctx: Ctx, use_model):
                              {"kind": "unload-static", "line": ln, "model": m, "impl": im})
 
 
+async def service_ops_case(ctx: Ctx, rng, n_ops):
+    """Random add_strategy / unload_overlay sequences on a real (unstarted) IPv8 with stub overlays and strategies."""
+    from ipv8.test.mocking.endpoint import MockEndpoint
+    from ipv8_service import IPv8
+    ep = MockEndpoint(("10.0.0.9", 1), ("10.0.0.9", 2))
+    svc = IPv8({"logger": {"level": "CRITICAL"}, "keys": [], "overlays": [], "walker_interval": 0.5}, endpoint_override=ep)
+    logging.disable(logging.CRITICAL)
+
+    class Ov:
+        def __init__(self, i):
+            self.i = i
+            self.unloaded = 0
+
+        def unload(self):
+            self.unloaded += 1
+
+    class St:
+        def __init__(self, sid, ov):
+            self.sid = sid
+            self.overlay = ov
+
+    ovs = {i: Ov(i) for i in (1, 2, 3)}
+    lines, impl = ["s reset"], ["ok"]
+    sid = 0
+    shape = []
+    for _ in range(n_ops):
+        if rng.random() < 0.7:
+            # runs of consecutive strategies of one overlay are as likely as interleavings
+            o = rng.choice([1, 2, 3])
+            for _ in range(rng.choice([1, 1, 2, 3])):
+                sid += 1
+                svc.add_strategy(ovs[o], St(sid, ovs[o]), rng.choice([-1, 20]))
+                lines.append(f"s add {o} {sid}")
+                impl.append("ok")
+                shape.append(o)
+        else:
+            o = rng.choice([1, 2, 3])
+            had = sum(1 for st, _ in svc.strategies if st.overlay is ovs[o])
+            await svc.unload_overlay(ovs[o])
+            lines.append(f"s unload {o}")
+            impl.append("ok")
+            left = [st.sid for st, _ in svc.strategies if st.overlay is ovs[o]]
+            ctx.count("service-unload:%d-strategies" % min(had, 4))
+            if left or ovs[o] in svc.overlays:
+                ctx.oracle_fail("IPv8.unload_overlay:strategy-left-registered",
+                                f"after unload_overlay of an overlay with {had} strategies (registration order of overlays "
+                                f"{shape}) the service still holds its strategies {left}",
+                                {"kind": "service-ops", "lines": lines[1:]})
+            shape = [x for x in shape if x != o]
+        lines.append("s list")
+        impl.append("overlays=[" + ",".join(str(o.i) for o in svc.overlays) + "] strategies=["
+                    + ",".join(f"{st.sid}:{st.overlay.i}" for st, _ in svc.strategies) + "]")
+    return lines, impl
+
+
+def run_service_ops(ctx: Ctx, rng, n_cases, use_model):
+    import vclock
+    loop = vclock.new_loop()        # maybe_coroutine() inside unload_overlay needs a loop
+    all_lines, all_impl, starts = [], [], []
+
+    async def main():
+        for _ in range(n_cases):
+            lines, impl = await service_ops_case(ctx, rng, rng.randrange(3, 14))
+            ctx.case(("svc", tuple(lines)), any(ln.startswith("s unload") for ln in lines))
+            starts.append(len(all_lines))
+            all_lines.extend(lines)
+            all_impl.extend(impl)
+
+    try:
+        loop.run_until_complete(main())
+    finally:
+        vclock.uninstall()
+        loop.close()
+        asyncio.set_event_loop(None)
+    if use_model and all_lines:
+        replies = ctx.driver().batch(all_lines)
+        bad = 0
+        for i, (ln, m, im) in enumerate(zip(all_lines, replies, all_impl)):
+            if m != im and bad < 5:
+                st = max(x for x in starts if x <= i)
+                ctx.disagree(f"service: model `{m}` != implementation `{im}` after `{all_lines[i - 1]}`",
+                             {"kind": "service-ops", "lines": all_lines[st + 1:i + 1], "model": m, "impl": im})
+                bad += 1
+
+
 def run(ctx: Ctx):
     if ctx.replay_input is not None:
         return replay(ctx, ctx.replay_input)
@@ -1553,6 +1758,7 @@ def run(ctx: Ctx):
     run_unload_static(ctx, use_model)
     run_registry(ctx, rng, ctx.scale(600, 4000), use_model)
     run_tm(ctx, rng, ctx.scale(600, 4000), use_model)
+    run_service_ops(ctx, rng, ctx.scale(300, 3000), use_model)
     if ctx.thorough():
         run_scenarios(ctx, rng, None, 6)          # every packet index, every role
     else:
@@ -1569,6 +1775,7 @@ def search(ctx: Ctx, reason: str):
     run_unload_static(ctx, False)
     run_registry(ctx, rng, 1500, False)
     run_tm(ctx, rng, 800, False)
+    run_service_ops(ctx, rng, 1000, False)
     run_scenarios(ctx, rng, 14, 5)
 
 
